@@ -371,7 +371,7 @@ Section Behaviour.
     = match choose r lk df with Ok (n, b) => Ok (erase n, b) | Fail e => Fail e end.
   Proof.
     unfold choose. destruct r as [v|e].
-    - destruct (to_hkey v) as [k|].
+    - destruct (negb (hashable v)); [reflexivity|]. destruct (to_hkey v) as [k|].
       + rewrite tfind_emap. destruct (tfind k lk); simpl; [reflexivity|].
         destruct df; reflexivity.
       + destruct df; reflexivity.
@@ -529,6 +529,9 @@ Section Behaviour.
       + destruct (hkey_eqb k' k0); [reflexivity|exact IH].
   Qed.
 
+  Lemma to_hkey_hashable v k : to_hkey v = Some k -> negb (hashable v) = false.
+  Proof. destruct v as [[]| |]; simpl; intros H; try discriminate; reflexivity. Qed.
+
   (** the new alias dispatches to the new implementation; every other dispatch value, and a
       failing dispatch, behave as before the registration *)
   Theorem register_dispatch f d lk df oid l k v o :
@@ -539,8 +542,10 @@ Section Behaviour.
       (forall e, eval f d o = Fail e -> eval (S f) ov' o = eval (S f) ov o).
   Proof.
     cbn [register_ov]. eexists. split; [reflexivity|]. repeat split.
-    - intros dv Hd Hk. rewrite eval_S, Hd. unfold choose. rewrite Hk, tfind_tset_same. reflexivity.
+    - intros dv Hd Hk. rewrite eval_S, Hd. unfold choose.
+      rewrite (to_hkey_hashable _ _ Hk), Hk, tfind_tset_same. reflexivity.
     - intros dv Hd Hk. rewrite !eval_S, Hd. unfold choose.
+      destruct (negb (hashable dv)); [reflexivity|].
       destruct (to_hkey dv) as [k'|]; [|reflexivity].
       rewrite tfind_tset_other; [reflexivity|].
       destruct (hkey_eqb k' k) eqn:E; [|reflexivity].
